@@ -128,6 +128,14 @@ def dispatch(it, body, st, t, fn, args, depth):
             return ret(st, INT(1 if src[1] else 0, d))
         return None  # fall back to inlining a local impl
 
+    # ---- panic-message formatting: irrelevant for values
+    if raw.startswith("core::fmt::") or (path or "").startswith("core::fmt::"):
+        return ret(st, OPAQUE("fmt"))
+    if name in ("set_zero", "set_one") and len(args) == 1 and args[0][0] == "ptr":
+        cur = it.load(st, args[0])
+        if cur[0] == "mag":
+            it.store(st, args[0][1], args[0][2], MAG(0 if name == "set_zero" else 1))
+            return ret(st, UNIT)
     # ---- identities / predicates
     if raw == "num_traits::Zero::zero" or raw == "num_traits::identities::Zero::zero":
         d = strip_refs(dest_ty)
@@ -149,8 +157,13 @@ def dispatch(it, body, st, t, fn, args, depth):
             return ret(st, BOOL(s[1] == 0))
         if v[0] == "bigval":
             p = v[1]
-            if p.is_const():
-                return ret(st, BOOL(p.const_value() == 0))
+            kz = st.known_zero(p)
+            if kz is None and all(c < 0 for c in p.t.values()):
+                kz = st.known_zero(-p)
+            if kz is not None:
+                return ret(st, BOOL(kz))
+            if all(c > 0 for c in p.t.values()) or all(c < 0 for c in p.t.values()):
+                raise NeedFork(("zero", p if all(c > 0 for c in p.t.values()) else -p))
             raise Unsupported("is_zero of computed BigInt %r" % (p,))
     if name == "is_one" and len(args) == 1:
         v = it.deref_all(st, args[0])
@@ -220,6 +233,23 @@ def dispatch(it, body, st, t, fn, args, depth):
                     return ret(st, ORD(o))
                 return ret(st, BOOL({"lt": o < 0, "le": o <= 0, "gt": o > 0, "ge": o >= 0, "eq": o == 0, "ne": o != 0}[name]))
             raise Unsupported("comparison of computed BigInt values")
+        if a[0] == "struct" and b[0] == "struct" and a[1] == "bigint::BigInt" and b[1] == "bigint::BigInt" and name in ("lt", "le", "gt", "ge", "partial_cmp"):
+            # default methods of core::cmp::PartialOrd: defined through the crate's own Ord::cmp, which we interpret
+            cb = it.facts.find(trait="core::cmp::Ord", self_ty="bigint::BigInt", name="cmp")
+            if len(cb) == 1:
+                outs = []
+                ca, cb_ = st.fresh("cmpa"), st.fresh("cmpb")
+                st.env[ca] = a
+                st.env[cb_] = b
+                for o in it.run_body(cb[0], st, [PTR(ca), PTR(cb_)], depth + 1):
+                    if o[0] != "return":
+                        raise Unsupported("Ord::cmp reaches %s" % o[0])
+                    ov = o[2][1]
+                    if name == "partial_cmp":
+                        outs.append(("return", o[1], ENUM("core::option::Option", "Some", [ORD(ov)])))
+                    else:
+                        outs.append(("return", o[1], BOOL({"lt": ov < 0, "le": ov <= 0, "gt": ov > 0, "ge": ov >= 0}[name])))
+                return outs
         return None  # BigInt vs BigInt: inline the crate's own impl
 
     # ---- arithmetic operator traits
